@@ -3,6 +3,8 @@ import MoqModel.Sexp
 import MoqModel.WF
 import MoqModel.GoFile
 import MoqModel.Seq
+import MoqModel.CliSpec
+open Moq.Cli (Node FsEff ErrV Flags Lib FS run runSpec)
 /-
   Driver: reads one `(case …)` per line on stdin, prints the model's projections.
   Output: lines `key<TAB>value` (value escaped), terminated by a line `end<TAB><id>`.
@@ -151,6 +153,75 @@ def handleRt (x : Sexp) : Option (IO Unit) :=
     pure (runRt id inp (← Sexp.getStr mkn) (← Sexp.getNat mdn) funcs script)
   | _ => none
 
+/- ------------------------- CLI scenarios (P-cli) ------------------------- -/
+open Moq.Cli in
+def nodeStr : Node → Str
+  | .absent => s%"absent"
+  | .file b => s%"file:" ++ b
+  | .dir => s%"dir"
+
+open Moq.Cli in
+def effStr : FsEff → Str
+  | .remove p => s%"remove " ++ p
+  | .mkdirAll p => s%"mkdirall " ++ p
+  | .writeFile p _ => s%"writefile " ++ p
+  | .load d => s%"load " ++ d
+
+open Moq.Cli in
+def optErr (x : List Sexp) : Option (Option ErrV) :=
+  match x with
+  | [] => some none
+  | [.atom a] => if a = s%"notexist" then some (some .notExist) else none
+  | [.str m] => some (some (.msg m))
+  | _ => none
+
+open Moq.Cli in
+def exceptOf (x : List Sexp) : Option (Except Str Str) :=
+  match x with
+  | [.atom a, .str m] => if a = s%"ok" then some (.ok m) else if a = s%"err" then some (.error m) else none
+  | _ => none
+
+/-- `(cli ID (out O) (rm B) (args A…) (prior absent|dir|(file "…")) (new ok ""|err "m") (mock ok "text"|err "m")
+      (fremove …) (fmkdir …) (fwrite …))` -/
+def handleCli (x : Sexp) : Option (IO Unit) :=
+  match x with
+  | .list (.atom t :: id :: fs) =>
+    if t ≠ s%"cli" then none else do
+    let id ← Sexp.getStr id
+    let [o] ← Sexp.field s%"out" fs | none
+    let [rm] ← Sexp.field s%"rm" fs | none
+    let args ← (← Sexp.field s%"args" fs).mapM Sexp.getStr
+    let prior ← Sexp.field s%"prior" fs
+    let pnode ← (match prior with
+                 | [.atom a] => if a = s%"absent" then some Node.absent else if a = s%"dir" then some Node.dir else none
+                 | [.str b] => some (Node.file b)
+                 | _ => none)
+    let nw ← exceptOf (← Sexp.field s%"new" fs)
+    let mk ← exceptOf (← Sexp.field s%"mock" fs)
+    let fr ← optErr (← Sexp.field s%"fremove" fs)
+    let fm ← optErr (← Sexp.field s%"fmkdir" fs)
+    let fw ← optErr (← Sexp.field s%"fwrite" fs)
+    let out ← Sexp.getStr o
+    let flags : Flags := { outFile := out, pkgName := [], formatter := [], stubImpl := false, skipEnsure := false,
+                           withResets := false, remove := (← Sexp.getBool rm), args := args }
+    let lib : Lib := { new := fun _ _ _ => nw.map fun _ => 1, mock := fun _ _ => mk }
+    let fs0 : FS := fun p => if p = out then pnode else .absent
+    pure do
+      match run Generated.runProg ⟨flags, { remove := fr, mkdir := fm, write := fw }, lib⟩ fs0 with
+      | none => kv "cli" s%"<interpretation failed>"
+      | some r =>
+        kv "cli" s%"ok"
+        kv "err" (match r.err with
+                  | none => s%"nil"
+                  | some .notExist => s%"<not-exist>"
+                  | some (.msg m) => m)
+        kv "stdout" r.world.stdout
+        kv "outnode" (nodeStr (r.world.fs out))
+        kv "effects" (Str.join s%";" (r.world.effects.map effStr))
+        kv "spec" (bstr (decide (r.err = (runSpec ⟨flags, { remove := fr, mkdir := fm, write := fw }, lib⟩ fs0).err)))
+      kv "end" id
+  | _ => none
+
 partial def loop (h : IO.FS.Stream) : IO Unit := do
   let line ← h.getLine
   if line.isEmpty then return ()
@@ -160,6 +231,9 @@ partial def loop (h : IO.FS.Stream) : IO Unit := do
   | none => IO.println "parse-error\tsexp"; IO.println "end\t?"
   | some (x, _) =>
     match handleRt x with
+    | some act => act
+    | none =>
+    match handleCli x with
     | some act => act
     | none =>
     match Sexp.toCase x with
